@@ -22,7 +22,7 @@ ROW = 'Tuple[Str,Real,Any,Str,Str]'          # (path, timestamp, data, directory
 
 cls('KazooClient', None, {})
 cls('ZnodeStat', None, {'last_modified': 'Real'})
-cls('TempFile', None, {'name': 'Path', 'db_table': 'Str', 'db': 'List[%s]' % ROW}, ctx=True)   # db*: ghost content
+cls('TempFile', None, {'name': 'Path', 'db_table': 'Str', 'db': 'List[%s]' % ROW, 'content': 'Any'}, ctx=True)   # db*, content: ghost
 cls('BinFile', None, {'name': 'Path'}, ctx=True)
 cls('SqlConn', None, {'file': 'Path'}, ctx=True)
 const('exc_parent:NoNodeError', 'KazooException')
@@ -104,8 +104,19 @@ contract('lib:SqlConn.executemany', types={'$params': ['self', 'sql', 'rows'], '
          modifies=['file_of(self.file).db'], assumed=True,
          note='INSERT ... VALUES(?, ?, ?, ?, ?) over the sequence: appends exactly the given rows (the SQL text is not '
               'interpreted: table and column order are read off the source)')
-contract('lib:SqlConn.execute', types={'$params': ['self', 'sql'], 'sql': 'Str', 'return': 'Any'}, assumed=True,
-         note='CREATE TABLE: no rows change (SELECT is used by download_batch only)')
+ufunc('sel_match', ['Str', 'Str'], 'Bool')     # the row name satisfies the WHERE clause of the statement text
+contract('lib:SqlConn.execute', types={'$params': ['self', 'sql'], 'sql': 'Str', 'return': 'List[Tuple[Str]]'},
+         ensures=['forall(lambda x: exists(lambda i: 0 <= i and i < len(result) and result[i][0] == x, "Int") == '
+                  '       exists(lambda j: 0 <= j and j < snap_len(file_of(self.file).content) and '
+                  '              snap_name(file_of(self.file).content, j) == x and sel_match(sql, x), "Int"), "Str")'],
+         modifies=['alloc'], assumed=True,
+         note='CREATE TABLE: no rows change.  SELECT name ... WHERE name GLOB <pattern> on a database file written from '
+              'bytes: the name column of exactly the rows the statement selects (sel_match(statement text, name): the SQL '
+              'text is not interpreted)')
+contract('lib:TempFile.write', types={'$params': ['self', 'data'], 'data': 'Any'},
+         ensures=['self.content == data'], modifies=['self.content'], assumed=True, note='the file holds the bytes written')
+contract('lib:zlib.decompress', types={'$params': ['data'], 'data': 'Any', 'return': 'Any'},
+         ensures=['result == zdec(data)'], assumed=True)
 contract('lib:SqlConn.executescript', types={'$params': ['self', 'sql'], 'sql': 'Str'}, assumed=True,
          note='CREATE INDEX: no rows change')
 contract('lib:SqlConn.close', types={'$params': ['self']}, assumed=True)
@@ -354,3 +365,35 @@ invariant(A + ':cleanup_finished', 0, 'for finished in zkclient.get_children(z.F
 invariant(A + ':cleanup_finished', 1, 'for idx in range(0, len(expired), batch_size)',
           ['batch_size >= 1', ('C18', 'fw(expired, expires_after)'), ('C18', 'fin_lossless()'),
            ('C18', 'fin_only_selected(expired)')])
+
+
+# ------------------------------------------------------------------ _zk.download_batch: what is archived is retrievable
+contract(T + ':download_batch',
+         types={'zkclient': 'KazooClient', 'db_node_path': 'Str', 'table': 'Str', 'name': 'Str', 'return': 'List[Str]',
+                'events': 'List[Str]', 'select_stmt': 'Str'},
+         raises={'NoNodeError': ['all_same()']},
+         ensures=[# exactly the names of the snapshot rows that the statement built from `name` selects
+                  ('C18', 'forall(lambda x: in_list(result, x) == '
+                          '       exists(lambda j: 0 <= j and j < snap_len(zdec(zk_content(db_node_path))) and '
+                          '              snap_name(zdec(zk_content(db_node_path)), j) == x and '
+                          '              sel_match(SEL, x), "Int"), "Str")', 'returns_selected_rows'),
+                  ('C18', 'all_same()', 'read_only')],
+         ghost_out={'SEL': ('Str', 'select_stmt')},
+         modifies=['fs', 'alloc'], props=['C18'])
+invariant(T + ':download_batch', 0, 'for row in conn.execute(select_stmt)',
+          ['all_same()',
+           ('C18', 'len(events) == _i'),
+           ('C18', 'forall(lambda j: implies(0 <= j and j < _i, events[j] == _seq[j][0]), "Int")')])
+
+
+# ------------------------------------------------------------------ the two pruning entry points (one-line callers of _zk.cleanup)
+for _fn, _root in (('cleanup_trace_history', '/trace.history'), ('cleanup_finished_history', '/finished.history')):
+    contract(A + ':' + _fn, types={'zkclient': 'KazooClient', 'max_count': 'Int'},
+             requires=['max_count >= 0'],
+             raises={'NoNodeError': ['all_same()']},
+             ensures=[('C18', 'forall(lambda a, b: implies(old(zk_exists(cp("%s", a))) and old(zk_exists(cp("%s", b))) and '
+                              '       not zk_exists(cp("%s", a)) and zk_exists(cp("%s", b)), a <= b), "Str", "Str")'
+                       % (_root, _root, _root, _root), 'pruned_are_older'),
+                      ('C18', 'forall(lambda p: implies(cp_parent(p) != "%s", zk_same(p)), "Str")' % _root, 'only_history'),
+                      ('C18', 'forall(lambda p: zk_same(p) or not zk_exists(p), "Str")', 'only_deletes')],
+             modifies=['zk', 'alloc'], props=['C18'])
